@@ -51,7 +51,7 @@ def stream_st(draw):
     mk = draw(st.integers(0, 9))
     charset = None
     if mk <= 3:
-        mime = draw(st.sampled_from(["text/gemini", "text/plain", "TEXT/Gemini", "text/html", ""]))
+        mime = draw(st.sampled_from(["text/gemini", "text/gemini", "text/plain", "TEXT/Gemini", "text/html", ""]))
         meta = mime
     elif mk <= 7:
         mime = draw(st.sampled_from(["text/gemini", "text/plain", "Text/Plain"]))
@@ -69,9 +69,12 @@ def stream_st(draw):
         meta = draw(st.one_of(st.text(max_size=40).filter(lambda s: "\r\n" not in s), st.just("m" * 2000)))
         mime = meta
         labels.append("meta:free")
-    bk = draw(st.integers(0, 9))
-    if bk <= 4:
-        txt = draw(st.sampled_from(SAMPLE_TEXT))
+    bk = draw(st.integers(0, 11))
+    if bk <= 4 or bk >= 10:
+        # (10, 11: line ends other than LF - the body is the bytes after the header, whatever they look like)
+        txt = draw(st.sampled_from(SAMPLE_TEXT if bk <= 4 else SAMPLE_TEXT[-4:]))
+        if bk >= 10:
+            labels.append("body:crlf")
         try:
             body = txt.encode(charset or "utf-8")
         except Exception:
